@@ -296,36 +296,3 @@ Lemma cleanup_spec st :
   d_svcs st' = [] /\ d_retrans st' = [] /\ d_dead st' = true /\
   os = flat_map (fun ks => map send_of (goodbyes_of (snd ks) (d_intfs st))) (d_svcs st) ++ [OExit].
 Proof. unfold cleanup. auto. Qed.
-
-(* ---- concrete histories ---------------------------------------------------------------------------------------------------- *)
-
-Definition b (l : list N) : bytes := l.
-(* "_t._tcp.local." "inst._t._tcp.local." "h.local." "eth0" *)
-Definition n_ty : bytes := [95;116;46;95;116;99;112;46;108;111;99;97;108;46].
-Definition n_full : bytes := [105;110;115;116;46;95;116;46;95;116;99;112;46;108;111;99;97;108;46].
-Definition n_host : bytes := [104;46;108;111;99;97;108;46].
-Definition n_eth0 : bytes := [101;116;104;48].
-Definition ip10 : bytes := [192;168;1;10].
-Definition mask24 : bytes := [255;255;255;0].
-Definition ex_intf : intf := mkIntf 2 n_eth0 [mkIA ip10 mask24].
-Definition ex_svc : svc := mkSvc n_ty None n_full n_host [ip10] 80 [0] true [].
-Definition ex_mon : bytes := [109].
-
-(* register at t = 1000 with jitter 100, woken exactly when asked *)
-Definition ex_register : list iter :=
-  [ mkIter 1000 [] [CMonitor; CRegister ex_svc] [100];
-    mkIter 1100 [] [] []; mkIter 1350 [] [] []; mkIter 1600 [] [] [];
-    mkIter 1850 [] [] [7]; mkIter 2850 [] [] [9] ].
-
-(* a response with a different SRV port for the instance name arrives 50 ms after the second probe *)
-Definition ex_conflict_dgram : dgram :=
-  mkDg 2 true [192;168;1;98] 5353 true []
-       [mkRR n_full TY_SRV 1 true 120 (RSrv 0 0 81 n_host)] [] [].
-Definition ex_renamed : list iter :=
-  [ mkIter 1000 [] [CMonitor; CRegister ex_svc] [100];
-    mkIter 1100 [] [] []; mkIter 1350 [] [] [];
-    mkIter 1400 [ex_conflict_dgram] [] [20];
-    mkIter 1420 [] [] []; mkIter 1600 [] [] []; mkIter 1670 [] [] []; mkIter 1850 [] [] [];
-    mkIter 1920 [] [] []; mkIter 2170 [] [] [5]; mkIter 2175 [] [] []; mkIter 2425 [] [] []; mkIter 2675 [] [] [];
-    mkIter 2925 [] [] [3]; mkIter 3925 [] [] [4];
-    mkIter 5000 [] [CUnregister n_full [117]] [] ].
